@@ -126,8 +126,14 @@ class MirRun(object):
         self.timings["prepare_s"] = time.time() - t0
         with open(self.dump_path) as fh:
             d = json.load(fh)
+        declared = set()
+        for fname, text in self.harness_files.items():
+            if fname == "prelude.rs":
+                continue
+            for fn in common.entry_names(text):
+                declared.add("%s::%s" % (fname[:-3], fn))
         self.entries = sorted(k.replace("happylock::verif_harness::", "") for k in d["entries"]
-                              if not k.startswith("happylock::verif_harness::prelude::"))
+                              if k.replace("happylock::verif_harness::", "") in declared)
         self.n_fns = len(d["fns"])
         self.n_bodies = sum(1 for f in d["fns"] if f["body"] is not None)
         self.n_blocks = sum(len(f["body"]["blocks"]) for f in d["fns"] if f["body"] is not None)
